@@ -1593,12 +1593,12 @@ impl<'s, P: Pay + Send + Sync> W<'s, P> {
                 let eq = x == y;
                 let ne = x != y;
                 let ord = x.cmp(y);
-                let mut h1 = std::collections::hash_map::DefaultHasher::new();
+                let mut h1 = crate::util::CallHasher::new();
                 x.hash(&mut h1);
                 let _ = format!("{:?}", x);
                 tk::set_probe(None);
                 probe_seen = Some((pd.seen_min.get(), pd.seen_max.get()));
-                let mut h2 = std::collections::hash_map::DefaultHasher::new();
+                let mut h2 = crate::util::CallHasher::new();
                 (**x).hash(&mut h2);
                 let dbg = format!("{:?}", x);
                 ensure!(
